@@ -1,3 +1,70 @@
 // ---- injected by /verif (insert-only): verification support module, compiled under cfg(kani) only ----
 #[cfg(kani)]
 pub(crate) mod kani_support;
+
+// ---- exports for the integration-test harnesses (tests/kani_drop.rs): the crate itself forbids unsafe code, so the
+// effect of the implicit drop (value in ManuallyDrop, ManuallyDrop::drop, then look at the storage) can only be observed
+// from another crate. Everything here exists under cfg(kani) only.
+#[cfg(kani)]
+pub mod kani_export {
+    use crate::hasher::sha256::Sha256_192;
+    pub use crate::hss::reference_impl_private_key::{ReferenceImplPrivateKey, SeedAndLmsTreeIdentifier};
+    pub use crate::kani_support::{fast_default, no_barrier};
+    pub use crate::lm_ots::definitions::LmotsPrivateKey;
+    pub use crate::lms::definitions::LmsPrivateKey;
+    use crate::Seed;
+    pub type HD = Sha256_192; // n = 24: 8 bytes of the 32-byte seed buffer lie beyond OUTPUT_SIZE
+
+    pub fn any_seed() -> Seed<HD> {
+        let b: [u8; 32] = kani::any();
+        Seed::from(b)
+    }
+    pub fn seed_is_zero(s: &Seed<HD>) -> bool {
+        *s == Seed::<HD>::default() // derived PartialEq: the whole backing buffer
+    }
+    pub fn any_seed_and_id() -> SeedAndLmsTreeIdentifier<HD> {
+        let id: [u8; 16] = kani::any();
+        SeedAndLmsTreeIdentifier::new(&any_seed(), &id)
+    }
+    pub fn seed_and_id_is_zero(s: &SeedAndLmsTreeIdentifier<HD>) -> bool {
+        seed_is_zero(&s.seed) && s.lms_tree_identifier == [0u8; 16]
+    }
+    pub fn any_ref_key() -> ReferenceImplPrivateKey<HD> {
+        let mut k = ReferenceImplPrivateKey::<HD>::default();
+        k.seed = any_seed();
+        k.compressed_used_leafs_indexes = crate::hss::reference_impl_private_key::CompressedUsedLeafsIndexes::new(kani::any());
+        k
+    }
+    pub fn ref_key_is_zero(k: &ReferenceImplPrivateKey<HD>) -> bool {
+        seed_is_zero(&k.seed)
+    }
+    pub fn any_lms_private_key() -> LmsPrivateKey<HD> {
+        let ots = crate::LmotsAlgorithm::LmotsW8.construct_parameter::<HD>().unwrap();
+        let lms = crate::LmsAlgorithm::LmsH5.construct_parameter::<HD>().unwrap();
+        LmsPrivateKey::new(any_seed(), kani::any(), kani::any(), ots, lms)
+    }
+    pub fn lms_private_key_is_zero(k: &LmsPrivateKey<HD>) -> bool {
+        seed_is_zero(&k.seed) && k.lms_tree_identifier == [0u8; 16] && k.used_leafs_index == 0
+    }
+    pub fn any_lmots_private_key() -> LmotsPrivateKey<HD> {
+        let p = crate::LmotsAlgorithm::LmotsW8.construct_parameter::<HD>().unwrap();
+        let mut key = tinyvec::ArrayVec::new();
+        let mut i = 0;
+        while i < p.get_num_winternitz_chains() {
+            let b: [u8; 32] = kani::any();
+            key.push(tinyvec::ArrayVec::from(b));
+            i += 1;
+        }
+        LmotsPrivateKey::new(kani::any(), kani::any(), key, p)
+    }
+    pub fn lmots_private_key_is_zero(k: &LmotsPrivateKey<HD>) -> bool {
+        let inner = k.key.0.into_inner();
+        let mut ok = k.lms_tree_identifier == [0u8; 16] && k.lms_leaf_identifier == [0u8; 4];
+        let mut j = 0;
+        while j < inner.len() {
+            ok = ok && inner[j].into_inner() == [0u8; 32];
+            j += 1;
+        }
+        ok
+    }
+}
